@@ -938,7 +938,9 @@ func c19DefValidAt(c *Ctx, fi *FuncInfo, stmt ast.Node, def ast.Expr, use *Loc) 
 				continue
 			}
 			if ef.kind == 'x' || tm.affected(ef.lhs) {
-				if use == nil || g.ReachesAvoiding(l, *use, nil) {
+				// the write matters only if it can reach the use without the definition being executed again
+				// (a loop counter advanced in the post statement reaches the use only through the definition)
+				if use == nil || g.ReachesAvoiding(l, *use, func(m ast.Node) bool { return m == stmt }) {
 					valid = false
 				}
 			}
